@@ -51,6 +51,7 @@ Grammar (anything else raises `Untranslatable` = "tie broken", never silently sk
 Output is deterministic (no timestamps).
 """
 import ast
+import json
 import os
 from fractions import Fraction
 
@@ -1160,8 +1161,73 @@ def envOf : List (String × R) → (String → R) → String → R
 '''
 
 
+BASELINE_PATH = os.path.join(HERE, "aberr_baseline.json")
+NOTES = []          # filled by generate(): units whose text is NOT a translation of the current source
+INFO = []           # informational: units where the tracer gave up and the syntactic translator took over
+RECORD = {}         # unit -> what was emitted (written to BASELINE_PATH by `--write-baseline` on the clean tree)
+
+
+def _tup(r):
+    return tuple(r) if isinstance(r, list) else r
+
+
+def load_baseline():
+    try:
+        with open(BASELINE_PATH) as f:
+            return json.load(f)
+    except Exception:  # noqa
+        return {}
+
+
+def unit(it, key, fn, baseline):
+    """run one translation unit; if the source left the grammar (or the interpreter trips) fall back, FOR THIS UNIT
+    ONLY, to the text last generated from the reference tree and say so in NOTES.  The fallback text is still executed
+    by the driver and compared with the real code by the correspondence streams; what is lost is only that the
+    theorems are re-checked against the CURRENT text of that unit (the note lands in the evidence)."""
+    n0, t0, g0 = len(it.defs), dict(it.translated), dict(it.has_guarded)
+    try:
+        r = fn()
+        RECORD[key] = {"defs": list(it.defs[n0:]), "ret": r,
+                       "translated": {k: [v.name, [list(p) for p in v.params], v.ret] for k, v in it.translated.items() if k not in t0},
+                       "has_guarded": [k for k in it.has_guarded if k not in g0]}
+        return r
+    except Exception as e:  # noqa
+        del it.defs[n0:]
+        it.translated, it.has_guarded = t0, g0
+        b = baseline.get(key)
+        if b is None:
+            raise
+        it.defs.extend(b["defs"])
+        for k, (nm, params, ret) in b["translated"].items():
+            it.translated[k] = Translated(nm, [tuple(p) for p in params], _tup(ret))
+        for k in b["has_guarded"]:
+            it.has_guarded[k] = True
+        NOTES.append({"unit": key, "kept": "text of the reference tree", "why": f"{type(e).__name__}: {e}"[:300]})
+        RECORD[key] = b
+        return _tup(b["ret"])
+
+
+def text_unit(key, fn, baseline):
+    """same for a unit that is one piece of text"""
+    try:
+        t = fn()
+        RECORD[key] = {"text": t}
+        return t
+    except Exception as e:  # noqa
+        b = baseline.get(key)
+        if b is None:
+            raise
+        NOTES.append({"unit": key, "kept": "text of the reference tree", "why": f"{type(e).__name__}: {e}"[:300]})
+        RECORD[key] = b
+        return b["text"]
+
+
 def generate():
-    """returns the Lean source text (raises Untranslatable if the source left the grammar)"""
+    """returns the Lean source text (raises Untranslatable only if a unit left the grammar AND has no reference text)"""
+    del NOTES[:]
+    del INFO[:]
+    RECORD.clear()
+    baseline = load_baseline()
     cp = Module(CP)
     val = Module(VAL)
     dpu = Module(DPU)
@@ -1197,38 +1263,87 @@ def generate():
                f"def CARTESIAN_LABELS : List String :=\n  {str_list(labels)}\n")
     # ---- formula code
     it = Interp(cp)
-    it.translate("aberration_surface", {"alpha": "R", "phi": "R", "wavelength": "R", "aberration_coefs": "env"})
-    it.translate("aberration_surface_polar_gradients", {"alpha": "R", "phi": "R", "aberration_coefs": "env"})
-    it.translate("aberration_surface_cartesian_gradients", {"alpha": "R", "phi": "R", "aberration_coefs": "env"})
-    r = it.translate("aberration_surface_cartesian_basis", {"alpha": "R", "phi": "R", "wavelength": "R"},
-                     bind={"cartesian_basis": labels})
-    if r != ("list", len(labels)):
-        raise Untranslatable("aberration_surface_cartesian_basis does not return one column per label")
-    r = it.translate("aberration_surface_cartesian_basis", {"alpha": "R", "phi": "R", "wavelength": "R", "cartesian_basis": "labels"},
-                     lean_name="aberration_surface_cartesian_basis_list", universe=labels)
-    if r != ("optlist",):
-        raise Untranslatable("aberration_surface_cartesian_basis over a dynamic label list does not return the built list")
+    K3 = {"alpha": "R", "phi": "R", "wavelength": "R", "aberration_coefs": "env"}
+    K2 = {"alpha": "R", "phi": "R", "aberration_coefs": "env"}
+    # the two guarded series are TRACED (the real functions executed on symbols, harness/translator/aberr_trace.py);
+    # the syntactic translation is the fallback, the reference text the fallback of the fallback
+    traced = {}
+
+    def traced_unit(name, argn, kinds, outputs):
+        try:
+            from . import aberr_trace as at
+        except ImportError:      # run as a script
+            import aberr_trace as at
+        tymap = {"R": "R", "env": "String → R"}
+        params = [(n, tymap[k]) for n, k in kinds.items()]
+        try:
+            mod = at.load_module(CP)
+            groups, terms = at.trace_guarded_sum(mod, name, argn, list(cp.consts["POLAR_SYMBOLS"]), len(outputs))
+            defs, gdef = at.emit_guarded_sum(name, params, outputs, groups, terms)
+        except at.TraceError as e:
+            INFO.append({"unit": name, "tracer": f"{e}"[:300], "using": "syntactic translator"})
+            return it.translate(name, kinds)
+        it.defs.extend(defs)
+        traced[name] = gdef
+        ret = "R" if len(outputs) == 1 else ("tuple", len(outputs))
+        it.translated[name] = Translated(name, [(n, k) for n, k in kinds.items()], ret)
+        return ret
+    unit(it, "aberration_surface",
+         lambda: traced_unit("aberration_surface", ["alpha", "phi", "wavelength", "coefs"], K3, ["chi"]), baseline)
+    unit(it, "aberration_surface_polar_gradients",
+         lambda: traced_unit("aberration_surface_polar_gradients", ["alpha", "phi", "coefs"], K2, ["dchi_dk", "dchi_dphi"]), baseline)
+    unit(it, "aberration_surface_cartesian_gradients", lambda: it.translate("aberration_surface_cartesian_gradients", K2), baseline)
+
+    def basis_static():
+        r = it.translate("aberration_surface_cartesian_basis", {"alpha": "R", "phi": "R", "wavelength": "R"},
+                         bind={"cartesian_basis": labels})
+        if r != ("list", len(labels)):
+            raise Untranslatable("aberration_surface_cartesian_basis does not return one column per label")
+        return r
+
+    def basis_dynamic():
+        r = it.translate("aberration_surface_cartesian_basis", {"alpha": "R", "phi": "R", "wavelength": "R", "cartesian_basis": "labels"},
+                         lean_name="aberration_surface_cartesian_basis_list", universe=labels)
+        if r != ("optlist",):
+            raise Untranslatable("aberration_surface_cartesian_basis over a dynamic label list does not return the built list")
+        return r
+    unit(it, "aberration_surface_cartesian_basis", basis_static, baseline)
+    unit(it, "aberration_surface_cartesian_basis_list", basis_dynamic, baseline)
     # second pass: the same functions with their guards kept
-    it.guarded = True
-    for fn_name, kinds in (("aberration_surface", {"alpha": "R", "phi": "R", "wavelength": "R", "aberration_coefs": "env"}),
-                           ("aberration_surface_polar_gradients", {"alpha": "R", "phi": "R", "aberration_coefs": "env"}),
-                           ("aberration_surface_cartesian_gradients", {"alpha": "R", "phi": "R", "aberration_coefs": "env"})):
-        it.translate(fn_name, kinds)
-    it.guarded = False
-    if it.translate("_passively_rotate_grid", {"kxa": "R", "kya": "R", "rotation_angle": "R"}) != ("tuple", 2):
-        raise Untranslatable("_passively_rotate_grid does not return a pair")
-    if it.translate("polar_coordinates", {"kx": "R", "ky": "R"}) != ("tuple", 2):
-        raise Untranslatable("polar_coordinates does not return a pair")
-    r1 = it.translate("polar_to_cartesian_aberrations", {"polar": "env"})
-    r2 = it.translate("cartesian_to_polar_aberrations", {"cart": "env"})
-    it.translate("merge_aberration_coefficients", {"init_coefs_polar": "env", "delta_coefs_cartesian": "env"})
+    for fn_name, kinds in (("aberration_surface", K3), ("aberration_surface_polar_gradients", K2),
+                           ("aberration_surface_cartesian_gradients", K2)):
+        def guarded(fn_name=fn_name, kinds=kinds):
+            if fn_name in traced:
+                it.defs.append(traced[fn_name])
+                it.has_guarded[fn_name] = True
+                return "traced"
+            it.guarded = True
+            try:
+                return it.translate(fn_name, kinds)
+            finally:
+                it.guarded = False
+        unit(it, fn_name + ":guarded", guarded, baseline)
+
+    def pair(name, kinds):
+        if it.translate(name, kinds) != ("tuple", 2):
+            raise Untranslatable(f"{name} does not return a pair")
+        return ("tuple", 2)
+    unit(it, "_passively_rotate_grid", lambda: pair("_passively_rotate_grid", {"kxa": "R", "kya": "R", "rotation_angle": "R"}), baseline)
+    unit(it, "polar_coordinates", lambda: pair("polar_coordinates", {"kx": "R", "ky": "R"}), baseline)
+    r1 = unit(it, "polar_to_cartesian_aberrations", lambda: it.translate("polar_to_cartesian_aberrations", {"polar": "env"}), baseline)
+    r2 = unit(it, "cartesian_to_polar_aberrations", lambda: it.translate("cartesian_to_polar_aberrations", {"cart": "env"}), baseline)
+    unit(it, "merge_aberration_coefficients",
+         lambda: it.translate("merge_aberration_coefficients", {"init_coefs_polar": "env", "delta_coefs_cartesian": "env"}), baseline)
     out.extend(it.defs)
     # ---- direct_ptycho_utils._torch_polar (2×2, abstract svd)
     it2 = Interp(dpu)
-    r = it2.translate("_torch_polar", {"m": "M"})
-    if r != ("mtuple", 2):
-        raise Untranslatable("_torch_polar does not return a pair of matrices")
-    fit_keys = translate_fit_tail(it2)
+
+    def tpolar():
+        if it2.translate("_torch_polar", {"m": "M"}) != ("mtuple", 2):
+            raise Untranslatable("_torch_polar does not return a pair of matrices")
+        return ("mtuple", 2)
+    unit(it2, "_torch_polar", tpolar, baseline)
+    fit_keys = unit(it2, "fit_aberrations_from_shifts_extract", lambda: translate_fit_tail(it2), baseline)
     out.extend(it2.defs)
     out.append(f"/-- keys of the dict returned by fit_aberrations_from_shifts, in order -/\ndef FIT_RESULT_KEYS : List String :=\n  {str_list(fit_keys)}\n")
     # ---- alias loop bodies (three implementations)
@@ -1237,12 +1352,16 @@ def generate():
     out.append("/-- the finite key universe the alias loop bodies were evaluated on (any other key takes the last arm) -/\n"
                f"def ALIAS_KEY_UNIVERSE : List String :=\n  {str_list(universe)}\n")
     cpc = {"POLAR_SYMBOLS": cp.consts["POLAR_SYMBOLS"], "POLAR_ALIASES": cp.consts["POLAR_ALIASES"]}
-    if "standardize_aberration_coefs" not in cp.funcs:
-        raise Untranslatable("standardize_aberration_coefs not found")
-    out.append(translate_alias_step(cp, cp.funcs["standardize_aberration_coefs"], cpc, universe,
-                                    "standardize_aberration_coefs_step", "complex_probe.standardize_aberration_coefs"))
-    out.append(translate_alias_step(val, val.funcs["validate_aberration_coefficients"], vl, universe,
-                                    "validate_aberration_coefficients_step", "validators.validate_aberration_coefficients"))
+    def std_step():
+        if "standardize_aberration_coefs" not in cp.funcs:
+            raise Untranslatable("standardize_aberration_coefs not found")
+        return translate_alias_step(cp, cp.funcs["standardize_aberration_coefs"], cpc, universe,
+                                    "standardize_aberration_coefs_step", "complex_probe.standardize_aberration_coefs")
+    out.append(text_unit("standardize_aberration_coefs_step", std_step, baseline))
+    out.append(text_unit("validate_aberration_coefficients_step",
+                         lambda: translate_alias_step(val, val.funcs["validate_aberration_coefficients"], vl, universe,
+                                                      "validate_aberration_coefficients_step", "validators.validate_aberration_coefficients"),
+                         baseline))
     setter = None
     for n in pm.tree.body:
         if isinstance(n, ast.ClassDef) and n.name == "ProbeBase":
@@ -1250,15 +1369,17 @@ def generate():
                 if isinstance(f, ast.FunctionDef) and f.name == "probe_params" and any(
                         isinstance(d, ast.Attribute) and d.attr == "setter" for d in f.decorator_list):
                     setter = f
-    if setter is None:
-        raise Untranslatable("ProbeBase.probe_params setter not found")
-    imported = set()
-    for n in ast.walk(pm.tree):
-        if isinstance(n, ast.ImportFrom) and n.module and n.module.endswith("complex_probe"):
-            imported |= {a.name for a in n.names}
-    if not {"POLAR_SYMBOLS", "POLAR_ALIASES"} <= imported:
-        raise Untranslatable("probe_models.py no longer imports POLAR_SYMBOLS / POLAR_ALIASES from complex_probe")
-    out.append(translate_alias_step(pm, setter, cpc, universe, "probe_params_setter_step", "ProbeBase.probe_params setter"))
+    def setter_step():
+        if setter is None:
+            raise Untranslatable("ProbeBase.probe_params setter not found")
+        imported = set()
+        for n in ast.walk(pm.tree):
+            if isinstance(n, ast.ImportFrom) and n.module and n.module.endswith("complex_probe"):
+                imported |= {a.name for a in n.names}
+        if not {"POLAR_SYMBOLS", "POLAR_ALIASES"} <= imported:
+            raise Untranslatable("probe_models.py no longer imports POLAR_SYMBOLS / POLAR_ALIASES from complex_probe")
+        return translate_alias_step(pm, setter, cpc, universe, "probe_params_setter_step", "ProbeBase.probe_params setter")
+    out.append(text_unit("probe_params_setter_step", setter_step, baseline))
     out.append(f"/-- keys written by polar_to_cartesian_aberrations, in order -/\ndef POLAR_TO_CARTESIAN_KEYS : List String :=\n  {str_list(r1[1])}\n")
     out.append(f"/-- keys written by cartesian_to_polar_aberrations, in order -/\ndef CARTESIAN_TO_POLAR_KEYS : List String :=\n  {str_list(r2[1])}\n")
     names = [d.split()[1] for d in it.defs if d.startswith("def ") and not d.split()[1].endswith("_guards")
@@ -1285,6 +1406,15 @@ if __name__ == "__main__":
     import sys
     if len(sys.argv) > 1 and sys.argv[1] == "--print":
         print(generate())
+    elif len(sys.argv) > 1 and sys.argv[1] == "--write-baseline":
+        # run on the reference tree only: every unit must translate
+        if os.path.exists(BASELINE_PATH):
+            os.rename(BASELINE_PATH, BASELINE_PATH + ".old")
+        generate()
+        assert not NOTES, NOTES
+        with open(BASELINE_PATH, "w") as f:
+            json.dump(RECORD, f, indent=0, sort_keys=True)
+        print("baseline written:", sorted(RECORD))
     else:
         ch, _ = regenerate()
         print("regenerated" if ch else "unchanged", OUT)
